@@ -93,8 +93,23 @@ def case(draw):
             "cmds": cmds, "ai": draw(st.booleans())}
 
 
+# J decides the separator from the end of the joined text and the start of the next line after its blanks are dropped: lines made of
+# what that rule looks at (blanks, ")", ".", empty and blank-only lines), joined with counts from any row
+JLINE = st.lists(st.sampled_from([" ", " ", "\t", ")", ")", ".", "x", "a.", "", "é"]), max_size=5).map("".join)
+
+
+@st.composite
+def joincase(draw):
+    cmds = []
+    for i in range(draw(st.integers(1, 4))):
+        if draw(st.integers(0, 2)) == 0:
+            cmds.append({"k": "move", "m": [draw(st.sampled_from(["j", "k", "G", "$", "0"])), None], "c1": 0})
+        cmds.append({"k": "join", "c1": draw(st.sampled_from([0, 0, 0, 2, 3, 4, 8]))})
+    return {"lines": draw(st.lists(JLINE, min_size=2, max_size=7)), "row": draw(st.integers(0, 5)), "off": draw(st.integers(0, 4)), "cmds": cmds, "ai": draw(st.booleans())}
+
+
 def strategy(tier):
-    return case()
+    return st.one_of(case(), case(), case(), case(), case(), case(), case(), joincase())
 
 
 OPKEY = {"d": "d", "c": "c", "y": "y", "<": "<", ">": ">", "g~": "~", "gu": "u", "gU": "U"}
